@@ -144,7 +144,8 @@ def build_pass(p, classes, nglyphs, sub_base):
     rm = b""
     for lst in fsm["rulemap"]:
         orm += u16(off)
-        for ri in lst:
+        # the order of a state's rule list is the writer's choice (the engine sorts it by precedence when it loads)
+        for ri in (reversed(lst) if p.get("rm_rev") else lst):
             rm += u16(ri)
         off += len(lst)
     orm += u16(off)
